@@ -365,7 +365,7 @@ func c14StoreBytes(k *c14Key, s *c14Spec, rd io.Reader, rcpt *sm2.PrivateKey) (o
 		out, err = cfca.MarshalSM2(s.pw, o, cert)
 		return out, "cfca", false, err
 	case c14SM9:
-		form := c14Mod(s.sub, 3) // 0 raw, 1 ASN.1, 2 compressed ASN.1
+		form := c14Mod(s.sub, 4) // 0 raw, 1 ASN.1, 2 compressed ASN.1, 3 raw in the compressed point form 02/03 || x (written by another producer: the harness)
 		desc = fmt.Sprintf("sm9-native form %d", form)
 		type marshaler interface {
 			Bytes() []byte
@@ -380,7 +380,11 @@ func c14StoreBytes(k *c14Key, s *c14Spec, rd io.Reader, rcpt *sm2.PrivateKey) (o
 		}
 		isMasterPriv := k.kind == c14SM9SignMaster || k.kind == c14SM9EncMaster
 		switch {
-		case form == 0 && !isMasterPriv:
+		case form == 3 && !isMasterPriv && len(m.Bytes()) == 65 && m.Bytes()[0] == 4:
+			// a point of G1 (signing user key, encryption master public key): 02 + parity(y) || x, GM/T 0044.1 6.2.8
+			b := m.Bytes()
+			out = append([]byte{2 + b[64]&1}, b[1:33]...)
+		case (form == 0 || form == 3) && !isMasterPriv:
 			out = m.Bytes()
 		case form == 2:
 			if cm, ok := k.obj.(compressor); ok {
@@ -487,7 +491,7 @@ func c14Load(rec *c14Rec, data, pw []byte, unwrap *sm2.PrivateKey, variant int) 
 		}
 		return key, err
 	case c14SM9:
-		raw := c14Mod(rec.spec.sub, 3) == 0
+		raw := c14Mod(rec.spec.sub, 4) == 0 || c14Mod(rec.spec.sub, 4) == 3
 		switch k.kind {
 		case c14SM9SignMaster:
 			return sm9.UnmarshalSignMasterPrivateKeyASN1(data)
